@@ -6,6 +6,7 @@ import (
 	"go/ast"
 	"go/token"
 	"go/types"
+	"os"
 	"sort"
 )
 
@@ -25,8 +26,30 @@ func (c *Ctx) runPathsWith(fd *ast.FuncDecl, conf func(*SX)) ([]*Path, string) {
 		}
 	}
 	v := c.view(fd)
+	if !x.KeepUnboxed {
+		if os.Getenv("ANYCHECK_SKIP") != "arm" {
+			paths = c.kindArmNorm(paths)
+		}
+		if os.Getenv("ANYCHECK_SKIP") != "unbox" {
+			dbg := func(tag string) {
+				if os.Getenv("ANYCHECK_LOOPS") == "" {
+					return
+				}
+				for i, p := range paths {
+					for _, s := range p.Steps {
+						if s.Loop != nil {
+							debugf("%s %s path %d loop %p iters %d\n", tag, declName(fd), i, s.Loop, len(s.Loop.Iter))
+						}
+					}
+				}
+			}
+			dbg("before")
+			paths = c.unboxNorm(paths)
+			dbg("after")
+		}
+	}
 	paths = v.countdownNorm(v.windowNorm(v.flagNorm(paths)))
-	paths = v.collectNorm(v.primitiveWriteNorm(v.sortNorm(paths)))
+	paths = v.collectNorm(v.siblingMerge(v.primitiveWriteNorm(v.sortNorm(paths))))
 	if c.quietHeap(fd, paths) {
 		paths = v.collapseEpochs(paths)
 		v.heapQuiet = true
@@ -102,7 +125,26 @@ func (c *Ctx) panicDomain(fd *ast.FuncDecl, nargs int, spec func(n int64, p []in
 		return 0, "", "unexpected integer parameters"
 	}
 	consts := c.intConstantsIn(&ast.FuncLit{Type: fd.Type, Body: fd.Body})
-	skip := func(cd Cond) bool { return !intFoldable(cd.T) }
+	// free decisions (both outcomes are held against the documented domain): type tests and the like, and the length of a text an
+	// opaque call returned (`len(self.String()) == 2`), which no integer argument determines
+	skip := func(cd Cond) bool {
+		if !intFoldable(cd.T) {
+			return true
+		}
+		free := false
+		collectSubterms(cd.T, func(u Term) {
+			if bl, ok := u.(TBuiltin); ok && bl.Name == "len" && len(bl.Args) == 1 {
+				if call, ok := bl.Args[0].(TCall); ok && call.Fun != nil {
+					if sig, ok := call.Fun.Type().(*types.Signature); ok && sig.Results().Len() == 1 {
+						if b, ok := sig.Results().At(0).Type().Underlying().(*types.Basic); ok && b.Info()&types.IsString != 0 {
+							free = true
+						}
+					}
+				}
+			}
+		})
+		return free
+	}
 	for n := int64(0); n <= 5; n++ {
 		vals := smallInputs(n, consts)
 		var rec func(k int, cur []int64)
